@@ -12,14 +12,20 @@
  * d<k> at any point.  The handler gets the path named by the optional last
  * header word: abs (default) <scratch>/d0/log.txt, abssub <scratch>/d0/sub/dir/log.txt,
  * rel "log.txt", dot "./log.txt", sub "sub/dir/log.txt" (relative ones resolve
- * against the working directory current at init).  The dump lists EVERY file
+ * against the working directory current at init), long<N> an ABSOLUTE path of exactly N bytes
+ * <scratch>/d0/<directories named qqq...>/log.txt (each directory name at most 200 bytes; the dump
+ * prints that directory as d0/LONG).  The dump lists EVERY file
  * under the scratch directory, with its path relative to it (F d0/log.txt.1 ...),
  * so that a log file outside the configured directory shows.  The working
  * directory of the process is restored after each case.
  *
  * Case header (first line):
  *     rot  <fmt> <backup_count> [path]
- *     trot <fmt> <unit s|m|h|d> <rotate_mod> <use_local_time 0|1> <tz offset, seconds east of UTC> [path]
+ *     trot <fmt> <unit s|m|h|d> <rotate_mod> <use_local_time 0|1> <zone> [path]
+ *       zone = <offset, seconds east of UTC>                (fixed-offset zone, TZ=VRF-hh:mm:ss)
+ *            | zone;<POSIX TZ string>;<base>;<t>=<off>,...  (TZ is set to the string, e.g.
+ *              EST5EDT,M3.2.0,M11.1.0; base and the transition list are what the MODEL uses: the
+ *              harness expands the rule for the years the case touches; this driver ignores them)
  *   fmt = simple (the library's default formatter "INFO|c.c:1 - payload\n")
  *       | raw    (a formatter installed with muggle_log_handler_set_fmt: "payload\n")
  * Operations:
@@ -30,6 +36,7 @@
  *                                           length: the handler truncates at MUGGLE_LOG_MSG_MAX_LEN)
  *     w <id> <len> <ts> <clock>       trot: message with ts.tv_sec = ts (0 = none), time() = clock
  *     restart <max_bytes | clock>     destroy + init
+ *     restart <max_bytes> <backup_count>   rot: destroy + init with another backup_count
  *     chdir <k>                       chdir(<scratch>/d<k>), k = 0..2
  *     civil <sec> / lcivil <sec>      gmtime_r / localtime_r (compared with the model's calendar)
  */
@@ -58,8 +65,9 @@ time_t __wrap_time(time_t *t)
 }
 
 static char g_dir[512];          /* scratch directory of this process */
-static char g_path[600];         /* the path handed to the init functions */
-static char g_spec[16];          /* abs abssub rel dot sub */
+static char g_path[8192];        /* the path handed to the init functions */
+static char g_longdir[8192];     /* long<N>: the directory (relative to the scratch dir) printed as d0/LONG */
+static char g_spec[32];          /* abs abssub rel dot sub long<N> */
 static int g_cwd;                /* index of the current working directory d<k> */
 static char g_orig_cwd[1024];
 static int g_kind;            /* 0 none, 1 rot, 2 trot */
@@ -84,7 +92,7 @@ static void rm_dir_contents(const char *dir)
 	DIR *d = opendir(dir);
 	if (!d) return;
 	struct dirent *e;
-	char p[1400];
+	char p[9000];
 	struct stat sb;
 	while ((e = readdir(d)) != NULL) {
 		if (!strcmp(e->d_name, ".") || !strcmp(e->d_name, "..")) continue;
@@ -97,7 +105,7 @@ static void rm_dir_contents(const char *dir)
 
 static void mkdirs(const char *path)
 {
-	char tmp[600];
+	char tmp[8192];
 	snprintf(tmp, sizeof(tmp), "%s", path);
 	for (char *p = tmp + 1; *p; p++) {
 		if (*p == '/') { *p = 0; mkdir(tmp, 0755); *p = '/'; }
@@ -112,6 +120,12 @@ static void close_handler(void)
 		if (g_kind == 2) g_th.handler.destroy(&g_th.handler);
 	}
 	g_opened = 0;
+}
+
+static void set_tz_string(const char *tz)
+{
+	setenv("TZ", tz, 1);
+	tzset();
 }
 
 static void set_tz(long off)
@@ -129,6 +143,7 @@ static void set_tz(long off)
 static void spec_dir(int cwd, char *out, size_t n)
 {
 	if (!strcmp(g_spec, "abs")) snprintf(out, n, "%s/d0", g_dir);
+	else if (!strncmp(g_spec, "long", 4)) snprintf(out, n, "%s/%s", g_dir, g_longdir);
 	else if (!strcmp(g_spec, "abssub")) snprintf(out, n, "%s/d0/sub/dir", g_dir);
 	else if (!strcmp(g_spec, "sub")) snprintf(out, n, "%s/d%d/sub/dir", g_dir, cwd);
 	else snprintf(out, n, "%s/d%d", g_dir, cwd);
@@ -137,7 +152,25 @@ static void spec_dir(int cwd, char *out, size_t n)
 static void set_spec(const char *spec)
 {
 	snprintf(g_spec, sizeof(g_spec), "%s", spec);
-	if (!strcmp(g_spec, "abs")) snprintf(g_path, sizeof(g_path), "%s/d0/log.txt", g_dir);
+	g_longdir[0] = 0;
+	if (!strncmp(g_spec, "long", 4)) {
+		/* absolute path of exactly N bytes: <g_dir>/d0/<filler>/log.txt */
+		long n = atol(g_spec + 4);
+		long fixed = (long)strlen(g_dir) + 4 + 8;          /* "/d0/" ... "/log.txt" */
+		long fill = n - fixed;
+		if (fill < 1) fill = 1;
+		if (fill > 7000) fill = 7000;
+		char *q = g_longdir + snprintf(g_longdir, sizeof(g_longdir), "d0/");
+		long comp = 0;
+		for (long k = 0; k < fill; k++) {
+			/* a component ends after 200 bytes; never end the filler with a separator */
+			if (comp == 200 && k + 1 < fill) { *q++ = '/'; comp = 0; }
+			else { *q++ = 'q'; comp++; }
+		}
+		*q = 0;
+		snprintf(g_path, sizeof(g_path), "%s/%s/log.txt", g_dir, g_longdir);
+	}
+	else if (!strcmp(g_spec, "abs")) snprintf(g_path, sizeof(g_path), "%s/d0/log.txt", g_dir);
 	else if (!strcmp(g_spec, "abssub")) snprintf(g_path, sizeof(g_path), "%s/d0/sub/dir/log.txt", g_dir);
 	else if (!strcmp(g_spec, "sub")) snprintf(g_path, sizeof(g_path), "sub/dir/log.txt");
 	else if (!strcmp(g_spec, "dot")) snprintf(g_path, sizeof(g_path), "./log.txt");
@@ -172,10 +205,12 @@ static int cmp_str(const void *a, const void *b) { return strcmp(*(char *const *
 
 static void dump_file(const char *name)
 {
-	char p[1200];
+	char p[9000];
 	snprintf(p, sizeof(p), "%s/%s", g_dir, name);
 	FILE *f = fopen(p, "rb");
-	printf("F %s\n", name);
+	size_t ll = strlen(g_longdir);
+	if (ll && !strncmp(name, g_longdir, ll) && name[ll] == '/') printf("F d0/LONG%s\n", name + ll);
+	else printf("F %s\n", name);
 	if (!f) { printf("UNREADABLE\n"); return; }
 	fseek(f, 0, SEEK_END);
 	long n = ftell(f);
@@ -207,7 +242,7 @@ static char *g_names[8192];
 static int g_nnames;
 static void collect(const char *rel)
 {
-	char p[1400], r[1400];
+	char p[9000], r[8500];
 	struct stat sb;
 	snprintf(p, sizeof(p), "%s%s%s", g_dir, rel[0] ? "/" : "", rel);
 	DIR *d = opendir(p);
@@ -275,6 +310,7 @@ static void print_tm(const char *tag, const struct tm *t)
 static void case_line(char *line)
 {
 	char op[32], a1[32], a2[32];
+	static char zf[4096];
 	long long a = 0, b = 0, c = 0, d = 0;
 	if (sscanf(line, "%31s", op) != 1) return;
 	if (g_kind == 0) {
@@ -282,9 +318,17 @@ static void case_line(char *line)
 		if (strcmp(op, "rot") == 0 && sscanf(line, "%*s %31s %lld %31s", a1, &a, sp) >= 2) {
 			g_kind = 1; g_raw = strcmp(a1, "raw") == 0; g_bc = (unsigned int)a;
 			set_spec(sp);
-		} else if (strcmp(op, "trot") == 0 && sscanf(line, "%*s %31s %31s %lld %lld %lld %31s", a1, a2, &a, &b, &c, sp) >= 5) {
-			g_kind = 2; g_raw = strcmp(a1, "raw") == 0; g_unit = a2[0]; g_mod = (unsigned int)a; g_local = b != 0; g_tzoff = (long)c;
-			set_tz(g_tzoff);
+		} else if (strcmp(op, "trot") == 0 && sscanf(line, "%*s %31s %31s %lld %lld %4095s %31s", a1, a2, &a, &b, zf, sp) >= 5) {
+			g_kind = 2; g_raw = strcmp(a1, "raw") == 0; g_unit = a2[0]; g_mod = (unsigned int)a; g_local = b != 0;
+			if (strncmp(zf, "zone;", 5) == 0) {
+				char *e = strchr(zf + 5, ';');
+				if (e) *e = 0;
+				g_tzoff = 0;
+				set_tz_string(zf + 5);
+			} else {
+				g_tzoff = atol(zf);
+				set_tz(g_tzoff);
+			}
 			set_spec(sp);
 		} else {
 			printf("badheader\n");
@@ -297,11 +341,11 @@ static void case_line(char *line)
 	if (strcmp(op, "pre") == 0) {
 		if (g_kind != 1 || g_opened) { printf("pre ignored\n"); return; }
 		char *save = NULL, *tok;
-		char p[1200];
+		char p[9000];
 		strtok_r(line, " ", &save);                 /* "pre" */
 		tok = strtok_r(NULL, " ", &save);            /* suffix */
 		if (!tok) return;
-		char dd[900];
+		char dd[8500];
 		spec_dir(g_cwd, dd, sizeof(dd));
 		mkdirs(dd);
 		if (strcmp(tok, "-") == 0) snprintf(p, sizeof(p), "%s/log.txt", dd); else snprintf(p, sizeof(p), "%s/log.txt.%s", dd, tok);
@@ -336,13 +380,14 @@ static void case_line(char *line)
 	if (strcmp(op, "open") == 0) {
 		sscanf(line, "%*s %lld", &a);
 		if (g_opened) { printf("open ignored\n"); return; }
-		printf("open %d\n", do_open(a));
+		{ int rc = do_open(a); if (rc == 0) printf("open 0\n"); else printf("open fail\n"); }
 		return;
 	}
 	if (strcmp(op, "restart") == 0) {
-		sscanf(line, "%*s %lld", &a);
+		int nf = sscanf(line, "%*s %lld %lld", &a, &b);
 		if (!g_opened) { printf("restart ignored\n"); return; }
 		close_handler();
+		if (nf == 2 && g_kind == 1) g_bc = (unsigned int)b;
 		printf("restart %d\n", do_open(a));
 		return;
 	}
